@@ -177,8 +177,16 @@ static void op_mig(actor *a, int ui, int how, int target)
             stat_add("mig_rejected_same_pool", 1);
             return;
         }
-        if (rc == ABT_SUCCESS && target == cur && !pending && !ALOAD(g_bulk_moves))
-            viol("migrate_to_pool to the unit's current pool %d was accepted", cur);
+        if (rc == ABT_SUCCESS && target == cur && !pending && !ALOAD(g_bulk_moves)) {
+            /* a request that started after this one (e.g. the unit's own) may have moved
+             * the unit while this call was under way */
+            int other = 0, n2 = ALOAD(m->nstarted);
+            for (int j = 0; j < n2 && j < MAXREQ; j++)
+                if (j != k && ALOAD(m->returned[j]) != 2)
+                    other = 1;
+            if (!other)
+                viol("migrate_to_pool to the unit's current pool %d was accepted", cur);
+        }
         CHECK_RC(rc, "ABT_thread_migrate_to_pool");
     } else if (how == 3) {
         if (rc != ABT_SUCCESS) {
@@ -211,7 +219,11 @@ static void op_mig(actor *a, int ui, int how, int target)
         }
         /* documented: ABT_ERR_MIGRATION_TARGET if the unit is associated with any pool
          * of the target (main) scheduler */
-        if (!pending && !ALOAD(g_bulk_moves))
+        int other2 = 0, n3 = ALOAD(m->nstarted);
+        for (int j = 0; j < n3 && j < MAXREQ; j++)
+            if (j != k && ALOAD(m->returned[j]) != 2)
+                other2 = 1;
+        if (!pending && !other2 && !ALOAD(g_bulk_moves))
             for (int q = 0; q < G.xs[target].npools; q++)
                 if (G.xs[target].pools[q] == cur)
                     viol("migrate_to_%s(stream %d) was accepted although the unit is associated "
